@@ -1,7 +1,7 @@
 #!/bin/bash
 # usage: tools/seedtest.sh <patch.diff> <tier> <CHECK>...   -- runs checks against a scratch copy of /repo with the patch applied
 P=$1; T=$2; shift 2
-D=$(mktemp -d /tmp/seedtest_XXXX); cp -r /repo $D/repo; rm -rf $D/repo/.git
+D=$(mktemp -d /tmp/seedtest_XXXX); cp -r ${SEEDBASE:-/repo} $D/repo; rm -rf $D/repo/.git
 (cd $D/repo && git init -q . 2>/dev/null; git apply --whitespace=nowarn $P) || { echo "PATCH DOES NOT APPLY: $P"; rm -rf $D; exit 3; }
 rm -rf $D/repo/.git
 for c in "$@"; do
